@@ -105,7 +105,8 @@ def mutated_roots(stmts):
     roots = set()
 
     def root(n):
-        while isinstance(n, (ast.Attribute, ast.Subscript)):
+        # a place that goes through an attribute lives on the heap (handled by body_heap_writes), not in a local
+        while isinstance(n, ast.Subscript):
             n = n.value
         return n.id if isinstance(n, ast.Name) else None
 
@@ -141,6 +142,7 @@ class Engine:
         self.ufuncs = {}
         self.axioms_cache = None
         self.proved_lemmas = []  # z3 formulas usable as axioms
+        self.extra_axioms = {}  # axioms of builtin summaries, added on first use
         self.stats = {"paths": 0, "dead_paths": 0, "feas_checks": 0}
         self.functions_info = {}
         self.dropped = {}
@@ -172,7 +174,7 @@ class Engine:
                     it = Interp(self, None, Decider([]), spec_only=True)
                     ax.append(it.quantify_fn(f))
             self.axioms_cache = ax
-        return self.axioms_cache + S.str_lit_axioms() + self.proved_lemmas
+        return self.axioms_cache + S.str_lit_axioms() + self.proved_lemmas + list(self.extra_axioms.values())
 
     def isinstance_formula(self, ref_t, clsname):
         ids = [i for c, i in self.class_ids.items() if self.m.is_subclass(c, clsname)]
@@ -978,6 +980,9 @@ class Interp:
         if kind == "for":
             seqinfo = self.iter_source(s.iter)
             self.st.locals[idx_name] = seqinfo.init_index()
+            if hasattr(seqinfo, "lst"):
+                # the sequence actually being iterated, for invariants (e.g. list(aset) is an arbitrary enumeration)
+                self.st.locals[f"_src{k}"] = seqinfo.lst
         # 1. invariant holds on entry
         self.run_hints(f"loop{k}:init")
         for n, inv in enumerate(invs):
@@ -1148,8 +1153,12 @@ class Interp:
     def assign(self, target, v, ann=None):
         if isinstance(target, ast.Name):
             old = self.st.locals.get(target.id)
-            if isinstance(v, V) and getattr(v, "meta", None) == "emptylit" and isinstance(old, V):
-                v = self.coerce(v, old.sort)
+            if isinstance(v, V) and getattr(v, "meta", None) == "emptylit":
+                decl = self.cur_fs.local_sorts.get(target.id) if self.cur_fs is not None else None
+                if decl is not None:
+                    v = self.coerce(v, decl)
+                elif isinstance(old, V):
+                    v = self.coerce(v, old.sort)
             self.st.locals[target.id] = v
         elif isinstance(target, (ast.Tuple, ast.List)):
             if not isinstance(v, V) or not isinstance(v.sort, S.TTuple):
@@ -1800,10 +1809,9 @@ class Interp:
         if fs.raise_ensures[k] is not None:
             self.st.assume(self.ev_spec(fs.raise_ensures[k]))
         exc = ExcObj(en, (), origin=f"call {fs.name}")
-        for nme, so, _ in fs.params:
-            # a callee declared to re-raise the exception object it was given
-            if so is S.TExc and fs.options.get("reraises") == nme:
-                exc = env[nme]
+        if k in fs.reraise:
+            # the callee raises the very exception object it was given (identity matters to callers that compare with `is`)
+            exc = env[fs.reraise[k]]
         raise PyRaise(exc)
 
     def havoc_assigns(self, fs, pre_st):
